@@ -192,6 +192,52 @@ class Gen:
         self.var += 1
         return "%s%d" % (p, self.var)
 
+    def defer_lit(self, fi, nfun, rec=None, fail=None):
+        """deferred closure: optional recover(), a marker, optionally a call, optionally a runtime error"""
+        rng = self.rng
+        b = [("print", self.m())]
+        if rec is None:
+            rec = rng.random() < 0.4
+        if fail is None:
+            fail = rng.random() < 0.15
+        if rng.random() < 0.3 and fi + 1 < nfun:
+            b.append(("call", rng.randint(fi + 1, nfun - 1)))
+        if fail:
+            b.append(("err",))
+            b.append(("print", self.m()))
+        return ("defer_lit", b, rec)
+
+    def defer_heavy(self, fi, nfun):
+        """a function body built around several deferred calls: recover() in a deferred call that is not the
+        first registered, deferred calls that fail, return / failing return inside the function's own try,
+        panic raised here or in a callee"""
+        rng = self.rng
+        out = [("print", self.m())]
+        k = rng.randint(2, 4)
+        recpos = rng.randint(0, k - 1) if rng.random() < 0.7 else -1
+        failpos = rng.randint(0, k - 1) if rng.random() < 0.35 else -1
+        for j in range(k):
+            if rng.random() < 0.2 and fi + 1 < nfun:
+                out.append(("defer_call", rng.randint(fi + 1, nfun - 1)))
+            else:
+                out.append(self.defer_lit(fi, nfun, rec=(j == recpos) or rng.random() < 0.15, fail=(j == failpos)))
+            if rng.random() < 0.3:
+                out.append(("print", self.m()))
+        t = rng.random()
+        if t < 0.35:
+            inner = [("print", self.m())] if rng.random() < 0.5 else []
+            inner.append(("reterr",) if rng.random() < 0.4 else ("retv", self.m()))
+            out.append(("try", inner, [("print", self.m())]))
+            out.append(("print", self.m()))
+        elif t < 0.65:
+            out.append(("panic", self.m()))
+        elif t < 0.85 and fi + 1 < nfun:
+            out.append((rng.choice(["call", "callv"]), rng.randint(fi + 1, nfun - 1)))
+            out.append(("print", self.m()))
+        else:
+            out.append(("try", [("err",)], [("print", self.m())]))
+        return out
+
     def block(self, depth, fi, nfun, in_loop, in_try, infun, ret, budget, ntry=0, nmark=0):
         """ntry: lexically enclosing try statements (body or catch) in this function; nmark: enclosing try
         bodies + loops (stack markers alive in this frame).  The clean stream keeps clear of three recorded
@@ -230,11 +276,7 @@ class Gen:
                 if rng.random() < 0.4 and fi + 1 < nfun:
                     out.append(("defer_call", rng.randint(fi + 1, nfun - 1)))
                 else:
-                    b = [("print", self.m())]
-                    rec = rng.random() < 0.4
-                    if rng.random() < 0.3 and fi + 1 < nfun:
-                        b.append(("call", rng.randint(fi + 1, nfun - 1)))
-                    out.append(("defer_lit", b, rec))
+                    out.append(self.defer_lit(fi, nfun))
             elif r < 0.91 and infun:
                 out.append(("panic", self.m()))
                 break
@@ -257,7 +299,10 @@ def gen_program(rng, allow_defects=False):
     funs = []
     for fi in range(nfun):
         ret = True     # every function returns int (so that `v := f()` and `f()` are both legal)
-        body = g.block(0, fi, nfun, False, False, True, ret, [14])
+        if rng.random() < 0.3:
+            body = g.defer_heavy(fi, nfun)
+        else:
+            body = g.block(0, fi, nfun, False, False, True, ret, [14])
         funs.append({"name": "f%d" % fi, "ret": ret, "body": body, "final": g.m()})
     main = g.block(0, -1, nfun, False, False, False, False, [10])
     if not any(s[0] in ("call", "callv") for s in main):
@@ -360,7 +405,8 @@ def render(prog):
 #  * `return <expr>` runs the deferred calls before the value is evaluated (compileReturn).
 
 class _Err(Exception):
-    pass
+    def __init__(self, panicky=False):
+        self.panicky = panicky
 
 
 class _Panic(Exception):
@@ -385,12 +431,45 @@ class _Budget(Exception):
     pass
 
 
-class _Undoc(Exception):
-    """an error or panic escaped from a deferred call: not covered by the documented clauses"""
+class _Escape(Exception):
+    """an error or unrecovered panic left the context of a deferred call"""
+    def __init__(self, panicky):
+        self.panicky = panicky
 
 
-def ref_trace(prog, limit=20000):
-    """-> (outcome class 0 ok / 1 error / 2 unhandled panic, [printed ints])"""
+class _CtxFatal(Exception):
+    """a deferred call failed while its context was unwinding a panic: the context's run ends with that
+    error, no try/catch of the context sees it (run.go: the result of unwindPanic is returned directly)"""
+    def __init__(self, panicky):
+        self.panicky = panicky
+
+
+def has_failing_defer(prog):
+    def walk(stmts):
+        for s in stmts:
+            if s[0] == "defer_lit" and any(x[0] in ("err", "call") for x in s[1]):
+                return True
+            if s[0] == "defer_call":
+                return True
+            if s[0] in ("try",):
+                if walk(s[1]) or (s[2] is not None and walk(s[2])):
+                    return True
+            if s[0] in ("if", "loop") and walk(s[2]):
+                return True
+        return False
+    return any(walk(f["body"]) for f in prog["funs"])
+
+
+def ref_trace(prog, limit=20000, vm_variant=False):
+    """-> (outcome class 0 ok / 1 error / 2 unhandled panic / 3 budget, [printed ints]).
+
+    Every deferred call runs in a context of its own (defer.go: NewContext per call): an error or unrecovered
+    panic that leaves it becomes an error at the point where the deferred calls were started -- the return
+    statement (inside the function's own try blocks, if any) on the normal path; on the panic path it ends the
+    run of the whole context.
+    vm_variant=False: the documented reading -- every registered deferred call runs once, also after one of
+    them failed.  vm_variant=True: what the VM does today (known finding failing-defer-skips-rest): the
+    remaining deferred calls of the frame are dropped after the first one that fails."""
     out = []
     steps = [0]
 
@@ -399,126 +478,137 @@ def ref_trace(prog, limit=20000):
         if steps[0] > limit:
             raise _Budget()
 
-    def run_fun(fi, panic_box):
-        """run function fi; returns its value.  panic_box: enclosing panic state for recover() (list of 1) or None"""
+    # a context = [panic value or None, parent context reachable through panicContext or None]
+    def recover(ctx):
+        c = ctx
+        while c is not None:
+            if c[0] is not None:
+                v = c[0]
+                c[0] = None
+                return v
+            c = c[1]
+        return None
+
+    def run_deferred(d, parent, panic_path):
+        ctx = [None, parent if panic_path else None]      # defer.go: only invokePanicDefers sets panicContext
+        try:
+            if d[0] == "call":
+                run_fun(d[1], ctx)
+            else:
+                if d[2]:
+                    v = recover(ctx)
+                    if v is not None:
+                        out.append(v)
+                try:
+                    block(d[1], None, None, ctx)
+                except _Ret:
+                    pass
+        except _Err as e:
+            raise _Escape(e.panicky)
+        except _Panic:
+            raise _Escape(True)
+        except _CtxFatal as e:
+            raise _Escape(e.panicky)
+
+    def run_defers(defers, ctx, panic_path):
+        lst = list(reversed(defers))
+        del defers[:]                         # spent: a later return path starts nothing
+        first = None
+        for d in lst:
+            try:
+                run_deferred(d, ctx, panic_path)
+            except _Escape as e:
+                if first is None:
+                    first = e
+                if vm_variant:
+                    break
+        if first is not None:
+            if panic_path:
+                raise _CtxFatal(first.panicky)
+            raise _Err(first.panicky)
+
+    def block(stmts, loopvar, regs, ctx):
+        for s in stmts:
+            tick()
+            k = s[0]
+            if k == "print":
+                out.append(s[1])
+            elif k == "err":
+                raise _Err()
+            elif k == "panic":
+                ctx[0] = s[1]
+                raise _Panic(s[1])
+            elif k == "try":
+                try:
+                    block(s[1], loopvar, regs, ctx)
+                except _Err:
+                    if s[2] is not None:
+                        block(s[2], loopvar, regs, ctx)
+            elif k == "if":
+                if s[1]:
+                    block(s[2], loopvar, regs, ctx)
+            elif k == "loop":
+                for i in range(s[1]):
+                    try:
+                        block(s[2], i, regs, ctx)
+                    except _Break:
+                        break
+                    except _Continue:
+                        continue
+            elif k == "break_at":
+                if loopvar == s[1]:
+                    raise _Break()
+            elif k == "continue_at":
+                if loopvar == s[1]:
+                    raise _Continue()
+            elif k == "call":
+                run_fun(s[1], ctx)
+            elif k == "callv":
+                v = run_fun(s[1], ctx)
+                out.append(v if v is not None else -3)
+            elif k == "defer_call":
+                regs.append(("call", s[1]))
+            elif k == "defer_lit":
+                regs.append(("lit", s[1], s[2]))
+            elif k == "return":
+                run_defers(regs, ctx, False)
+                raise _Ret(None)
+            elif k == "retv":
+                # compileReturn: RunDefers first, then the value
+                run_defers(regs, ctx, False)
+                raise _Ret(s[1])
+            elif k == "reterr":
+                run_defers(regs, ctx, False)
+                raise _Err()
+
+    def run_fun(fi, ctx):
         f = prog["funs"][fi]
         defers = []
-        result = [None]
-
-        def run_defers(pbox):
-            while defers:
-                d = defers.pop()
-                run_deferred(d, pbox)
-
-        def run_deferred(d, pbox):
-            # a deferred call runs in its own context: errors inside it are not seen by the try blocks of the
-            # function that registered it, but propagate as the error of the RunDefers/return point
-            try:
-                if d[0] == "call":
-                    call(d[1], pbox)
-                else:
-                    if d[2]:
-                        if pbox is not None and pbox[0] is not None:
-                            v = pbox[0]
-                            pbox[0] = None
-                            out.append(v)
-                    try:
-                        block(d[1], None, pbox, None)
-                    except _Ret:
-                        pass
-            except (_Err, _Panic):
-                raise _Undoc()
-
-        def call(fj, pbox):
-            return run_fun(fj, pbox)
-
-        def block(stmts, loopvar, pbox, regs):
-            for s in stmts:
-                tick()
-                k = s[0]
-                if k == "print":
-                    out.append(s[1])
-                elif k == "err":
-                    raise _Err()
-                elif k == "panic":
-                    raise _Panic(s[1])
-                elif k == "try":
-                    try:
-                        block(s[1], loopvar, pbox, regs)
-                    except _Err:
-                        if s[2] is not None:
-                            block(s[2], loopvar, pbox, regs)
-                elif k == "if":
-                    if s[1]:
-                        block(s[2], loopvar, pbox, regs)
-                elif k == "loop":
-                    for i in range(s[1]):
-                        try:
-                            block(s[2], i, pbox, regs)
-                        except _Break:
-                            break
-                        except _Continue:
-                            continue
-                elif k == "break_at":
-                    if loopvar == s[1]:
-                        raise _Break()
-                elif k == "continue_at":
-                    if loopvar == s[1]:
-                        raise _Continue()
-                elif k == "call":
-                    call(s[1], pbox)
-                elif k == "callv":
-                    v = call(s[1], pbox)
-                    out.append(v if v is not None else -3)
-                elif k == "defer_call":
-                    regs.append(("call", s[1]))
-                elif k == "defer_lit":
-                    regs.append(("lit", s[1], s[2]))
-                elif k == "return":
-                    raise _Ret(None)
-                elif k == "retv":
-                    raise _Ret(s[1])
-                elif k == "reterr":
-                    # compileReturn: RunDefers, then the expression (which fails); the deferred calls are spent
-                    run_defers(None)
-                    raise _Err()
-
         try:
-            try:
-                block(f["body"], None, panic_box, defers)
-                raise _Ret(f["final"])
-            except _Ret as r:
-                # compileReturn: RunDefers first, then the value
-                run_defers(None)
-                return r.v
-        except _Panic as p:
-            box = [p.v]
-            # defers registered so far run with the panic visible to recover()
-            try:
-                run_defers(box)
-            except _Panic:
-                raise
-            if box[0] is None:
-                return None          # recovered: caller resumes, unnamed result is nil
-            raise _Panic(box[0])
+            block(f["body"], None, defers, ctx)
+            run_defers(defers, ctx, False)
+            return f["final"]
+        except _Ret as r:
+            return r.v
+        except _Panic:
+            # panic state lives in the context (Context.panicActive/panicValue); a deferred call of this frame,
+            # or of a frame of a context further down the panicContext chain, may clear it
+            run_defers(defers, ctx, True)
+            if ctx[0] is None:
+                return None          # recovered: the caller resumes, an unnamed result is nil
+            raise _Panic(ctx[0])
 
-    def main():
-        # main is a function too (no defers in the generated main)
-        mainf = {"name": "main", "body": prog["main"], "final": None}
-        prog["funs"].append(mainf)
-        try:
-            run_fun(len(prog["funs"]) - 1, None)
-        finally:
-            prog["funs"].pop()
-
+    prog["funs"].append({"name": "main", "body": prog["main"], "final": None})
     try:
-        main()
+        run_fun(len(prog["funs"]) - 1, [None, None])
         return 0, out
-    except _Err:
-        return 1, out
+    except _Err as e:
+        return (2 if e.panicky else 1), out
+    except _CtxFatal as e:
+        return (2 if e.panicky else 1), out
     except _Panic:
         return 2, out
     except _Budget:
         return 3, out
-    except _Undoc:
-        return 9, out
+    finally:
+        prog["funs"].pop()
